@@ -28,8 +28,11 @@ func C07(c *core.Ctx) {
 		"(one attribute per received IE, or a payload-proportional byte string) first passes a length check that rejects anything the 16-bit netlink " +
 		"attribute length cannot hold — go-nl wraps the length and panics in Attr.Encode otherwise; (P9) a decodable request that is not a " +
 		"retransmission reaches the dispatcher whatever the server's load or stored state: the loop gives up on it only for a parse error, the " +
-		"request/response routing, the transaction lookup and the duplicate verdict; (P7) messages end exactly the sessions they address (re-association resets only the found node; rules shared with C05 R3)."
-	c.Undec = []string{"panics inside dependencies (go-pfcp IE/message parsing, go-gtp5gnl, go-nl, logrus): library code is not analysed — the properties file itself reports two such crashes",
+		"request/response routing, the transaction lookup and the duplicate verdict; (P7) messages end exactly the sessions they address (re-association resets only the found node; rules shared with C05 R3); " +
+		"(L2) go-pfcp's decoding functions reachable from the event loop (call graph, encoders excluded): every index/slice expression the compiler cannot prove is " +
+		"discharged by the linear-relational engine (offsets compared with the length on every path), or by the frozen table of sites confirmed by reading " +
+		"(rows that hold for one IE type only are re-checked at every call site), or reported — a new decoding accessor called by go-upf extends the scope."
+	c.Undec = []string{"panics inside dependencies other than bounds faults of go-pfcp's decode scope (L2): nil dereferences inside go-pfcp, go-gtp5gnl / go-nl (they decode kernel replies, not datagrams), logrus",
 		"resource exhaustion (memory, sockets)", "kernel-originated netlink input (buffnetlink decoders run on the mux goroutine, outside the datagram path)"}
 	c.Assume = []string{"Go compiler prove pass is sound", "net.UDPConn.ReadFrom returns 0 <= n", "call graph over-approximates", "library functions do not panic on the values go-upf hands them"}
 	p := c.P
